@@ -25,6 +25,7 @@ type nullTransport struct {
 	streamCh chan net.Conn
 	mu       sync.Mutex
 	sent     [][]byte
+	dialer   func(addr string) (net.Conn, error)
 }
 
 func newNullTransport() *nullTransport {
@@ -41,6 +42,9 @@ func (t *nullTransport) WriteTo(b []byte, addr string) (time.Time, error) {
 }
 func (t *nullTransport) PacketCh() <-chan *ml.Packet { return t.pktCh }
 func (t *nullTransport) DialTimeout(addr string, timeout time.Duration) (net.Conn, error) {
+	if t.dialer != nil {
+		return t.dialer(addr)
+	}
 	return nil, fmt.Errorf("null transport: no streams")
 }
 func (t *nullTransport) StreamCh() <-chan net.Conn { return t.streamCh }
@@ -164,6 +168,8 @@ type mnode struct {
 	timers []*ml.VerifSuspicion // every suspicion timer ever created, in creation order
 	seen   map[*ml.VerifSuspicion]bool
 	known  map[string]bool // timer identity by (node,start)
+	tr     *nullTransport
+	mdel   *mergeDelT
 }
 
 type mcfg struct {
@@ -172,6 +178,23 @@ type mcfg struct {
 	aliveDel  bool
 	awareMax  int
 	suspMult  int
+	name      string // default "S"
+	advertise string // default 10.0.0.9
+	mergeDel  bool
+}
+
+// mergeDel is a merge delegate whose verdict the harness sets per call.
+type mergeDelT struct {
+	veto  bool
+	calls int
+}
+
+func (d *mergeDelT) NotifyMerge(peers []*ml.Node) error {
+	d.calls++
+	if d.veto {
+		return fmt.Errorf("merge vetoed")
+	}
+	return nil
 }
 
 func (c mcfg) String() string {
@@ -189,8 +212,15 @@ func newMnode(c mcfg) (*mnode, error) {
 	rec := &recorder{pool: pool}
 	conf := ml.DefaultLANConfig()
 	conf.Name = "S"
-	conf.Transport = newNullTransport()
+	if c.name != "" {
+		conf.Name = c.name
+	}
+	tr := newNullTransport()
+	conf.Transport = tr
 	conf.AdvertiseAddr = "10.0.0.9"
+	if c.advertise != "" {
+		conf.AdvertiseAddr = c.advertise
+	}
 	conf.AdvertisePort = 7946
 	conf.BindPort = 7946
 	conf.ProbeInterval = time.Hour
@@ -210,7 +240,11 @@ func newMnode(c mcfg) (*mnode, error) {
 	if c.reclaim {
 		conf.DeadNodeReclaimTime = time.Hour
 	}
-	mn := &mnode{rec: rec, pool: pool, known: map[string]bool{}}
+	mn := &mnode{rec: rec, pool: pool, known: map[string]bool{}, tr: tr}
+	if c.mergeDel {
+		mn.mdel = &mergeDelT{}
+		conf.Merge = mn.mdel
+	}
 	if c.allowlist {
 		nets, err := ml.ParseCIDRs([]string{"10.0.0.0/8", "fd00::/8"})
 		if err != nil {
